@@ -1104,9 +1104,19 @@ func checkSCase(c SCase, o *vt.Obs) error {
 	}
 
 	// ---- crash points inside the last AddBlock + jump ----
-	if c.CrashJump && cBefore >= 0 && cAfter > cBefore {
-		o.Label("jump-crash-enumeration")
-		for k := cBefore; k < cAfter; k++ {
+	// k commits survive, everything written only to the in-memory layers afterwards is lost. k = cAfter is the window
+	// right behind the jump: its last commit (which removes the stage marker) is on disk, nothing is resumed on
+	// start, and whatever the jump or the module wrote after that commit is gone. That point is examined for every
+	// memory-backed case (MPT and storage mode alike), the points in between when CrashJump is drawn. cAfter was
+	// read when AddBlock returned, before any flush issued by the harness.
+	if cBefore >= 0 && cAfter > cBefore {
+		from := cAfter
+		if c.CrashJump {
+			from = cBefore
+			o.Label("jump-crash-enumeration")
+		}
+		o.Label("crash-right-after-jump")
+		for k := from; k <= cAfter; k++ {
 			if (d.kF1 && !c.Storage && k <= cBefore+1) || (d.kF2 && k == cBefore+1) || (d.kF3 && trusted == 0 && k >= cBefore+4) {
 				o.Excluded()
 				o.Label("known:jump-crash-point-skipped")
@@ -1140,7 +1150,11 @@ func checkSCase(c SCase, o *vt.Obs) error {
 				if err := td.atSyncPoint(who); err != nil {
 					return err
 				}
-				return td.lockstep(who, min(P+3, total), false)
+				upTo := min(P+3, total)
+				if k == cAfter {
+					upTo = min(P+8, total)
+				}
+				return td.lockstep(who, upTo, false)
 			}()
 			td.n.close()
 			o.Units(1)
